@@ -76,7 +76,7 @@ func main() {
 	}
 
 	if r.Phase == "app" {
-		n := r.N(240, 9600)
+		n := r.N(960, 19200)
 		for b := 0; b*appBatch < n; b++ {
 			if !r.Mine(b) {
 				continue
@@ -97,7 +97,7 @@ func main() {
 		return
 	}
 
-	n := r.N(600, 60000)
+	n := r.N(2400, 120000)
 	for b := 0; b*batchSize < n; b++ {
 		if !r.Mine(b) {
 			continue
